@@ -37,8 +37,11 @@ def work(tier, seed):
     for bl in ot.order_types(b["max_pos"], b["max_neg"]):
         if not bl:
             continue
+        big_ = tier != "quick" and sum(a + c for a, c in bl) > 6  # thorough: the 4,600 larger order types on three grids, small easy menu
         for gi, kind in enumerate(b["grids"]):
-            items.append({"blocks": [list(x) for x in bl], "grid": kind, "scalars": gi == 0, "mutated": gi == 0})
+            if big_ and kind not in ("irregular", "int", "uint"):
+                continue
+            items.append({"blocks": [list(x) for x in bl], "grid": kind, "scalars": gi == 0 and not big_, "mutated": gi == 0 and not big_, "big": big_})
         # classes stored in different dtypes, the narrower one unable to hold the other's values (small order types in quick)
         if tier != "quick" or sum(a + c for a, c in bl) <= 4:
             for kind in ot.MIXED_KINDS[1:] + ["unit"]:
@@ -107,5 +110,7 @@ def run(item, ctx, tier, seed):
     easy = [tuple(e) for e in b["easy"]]
     if "ladder" in item:
         easy = [(0, 0), (3, 5)]
+    if item.get("big"):
+        easy = [(0, 0), (1, 2)]
     clauses = set(CLAUSES)
     tc.explore(item, ctx, seed, easy, clauses)
